@@ -40,6 +40,7 @@ type absPkt struct {
 }
 
 func (p absPkt) flagged() bool { return p.Fl != "" && p.Fl != "none" }
+
 type absRead struct {
 	F string `json:"f"` // T | L | B
 	N int    `json:"n"` // bytes handed over by this Read (0 = empty read)
@@ -641,7 +642,8 @@ func drive(env *fw.Env, b fw.Behaviour) *fw.Trace {
 			}
 		}()
 		idx := 0
-		var held []*packet.TransferPacket // every decoded packet stays with the caller until the whole sequence is read
+		var held []*packet.TransferPacket  // every decoded packet stays with the caller until the whole sequence is read
+		var snaps []*packet.TransferPacket // deep copies taken when each packet was returned
 		same := func(o, pkt *packet.TransferPacket) bool {
 			if o.CommandPacket != nil {
 				return pkt.CommandPacket != nil && reflect.DeepEqual(*o.CommandPacket, *pkt.CommandPacket) && len(pkt.Payload) == 0
@@ -664,6 +666,7 @@ func drive(env *fw.Env, b fw.Behaviour) *fw.Trace {
 					// an error for a packet with a caller-preset flag: the reader may refuse it, the caller reads on
 					evs = append(evs, fw.Event{"ev": "Rejected", "consumed": consumed, "msg": err.Error(), "at": before})
 					held = append(held, nil)
+					snaps = append(snaps, nil)
 					idx++
 					continue
 				} else {
@@ -680,6 +683,15 @@ func drive(env *fw.Env, b fw.Behaviour) *fw.Trace {
 			ev["eq"] = idx < len(orig) && same(orig[idx], pkt)
 			evs = append(evs, ev)
 			held = append(held, pkt)
+			snap := &packet.TransferPacket{Payload: append([]byte(nil), pkt.Payload...)} // what was handed out, as handed out
+			if pkt.Payload == nil {
+				snap.Payload = nil
+			}
+			if pkt.CommandPacket != nil {
+				cp := *pkt.CommandPacket
+				snap.CommandPacket = &cp
+			}
+			snaps = append(snaps, snap)
 			idx++
 		}
 		// the sequence has been read: every packet handed out earlier must still be what was written
@@ -687,7 +699,7 @@ func drive(env *fw.Env, b fw.Behaviour) *fw.Trace {
 			if pkt == nil {
 				continue
 			}
-			evs = append(evs, fw.Event{"ev": "Held", "i": i + 1, "eq": i < len(orig) && same(orig[i], pkt)})
+			evs = append(evs, fw.Event{"ev": "Held", "i": i + 1, "eq": same(snaps[i], pkt)})
 		}
 		if endEv != nil {
 			evs = append(evs, endEv)
@@ -877,7 +889,11 @@ func selfTest(env *fw.Env, acc []*fw.Trace) []*fw.Trace {
 	picked := 0
 	for _, t := range acc {
 		last, end, heldAt := -1, -1, -1
+		zpre := false
 		for i, e := range t.Events {
+			if e["fl"] == "zpre" { // the body of such a packet is deliberately not judged
+				zpre = true
+			}
 			switch e["ev"] {
 			case "Packet":
 				last = i
@@ -887,7 +903,7 @@ func selfTest(env *fw.Env, acc []*fw.Trace) []*fw.Trace {
 				heldAt = i
 			}
 		}
-		if last < 0 || end < 0 || heldAt < 0 || picked >= 6 {
+		if last < 0 || end < 0 || heldAt < 0 || zpre || picked >= 6 {
 			continue
 		}
 		picked++
@@ -962,7 +978,7 @@ func main() {
 		ModelJobs: func(env *fw.Env) []fw.TLCJob {
 			pk, ln := 2, 3
 			if env.Tier == "thorough" {
-				pk, ln = 3, 3
+				pk, ln = 3, 2 // with the flag dimension 3x3 is 4.2M states (10 min); 3x2 keeps thorough in minutes
 			}
 			return []fw.TLCJob{
 				{Name: "mc:contract", Module: "Framing", Cfg: "Framing_mc.cfg", Consts: subst(pk, ln, 1)},
